@@ -22,6 +22,11 @@ impl IgnorePathSet {
     pub(crate) fn is_match(&self, file_name: &FileName) -> bool {
         match file_name {
             FileName::Stdin => false,
+            // The patterns are relative to the directory of the rustfmt.toml they come from, and
+            // the matcher panics when it is asked about an absolute path outside that directory
+            // (e.g. a file formatted with a `--config-path` from somewhere else): such a file is
+            // not covered by them.
+            FileName::Real(p) if p.is_absolute() && !p.starts_with(self.ignore_set.path()) => false,
             FileName::Real(p) => self
                 .ignore_set
                 .matched_path_or_any_parents(p, false)
